@@ -724,7 +724,11 @@ def vc_contains(container, x):
         if isinstance(container, (list, tuple, set, frozenset)) or type(container).__name__ in ("dict_keys",):
             r = SBool(False)
             for e in container:
-                r = r | (e == x) if isinstance(e, Sym) else r
+                eq = x == e  # the proxy on the left: its __eq__ knows how to compare with a concrete value
+                if isinstance(eq, SBool):
+                    r = r | eq
+                elif eq is True:
+                    return SBool(True)
             return r
         raise Unsupported(f"symbolic element in concrete {type(container).__name__}")
     return x in container
